@@ -217,8 +217,9 @@ def get_spacing(detector_grid):
     if len(xspacing) == 0 or len(yspacing) == 0:
         msg = "array has a single row or column, can't determine its spacing"
         raise ValueError(msg)
-    if not (np.allclose(xspacing[0], xspacing) and
-            np.allclose(yspacing[0], yspacing)):
+    # (atol=0: the tolerance is relative to the spacing, not a length)
+    if not (np.allclose(xspacing[0], xspacing, atol=0) and
+            np.allclose(yspacing[0], yspacing, atol=0)):
         msg = "array has nonuniform spacing, can't determine a single spacing"
         raise ValueError(msg)
     return np.array((xspacing[0], yspacing[0]))
